@@ -204,6 +204,36 @@ def read_job(job):
                         same.append('%r read alone is not in the reaction sets' % line)
                     del o
                 res['line_vs_doc'] = same
+        if out is not None and job.get('keep_only'):
+            # keep only the complexes (or only the reactions / macrostates) of the result and drop everything else, collect:
+            # whatever the kept objects were built from must still be alive and registered
+            kind = job['keep_only']
+            kept = list(out['complexes'].values()) if kind == 'complexes' else list(out['macrostates'].values()) if kind == 'macrostates' \
+                else list(out['det_reactions']) + list(out['con_reactions'])
+            need = set()
+            def members(o):
+                if isinstance(o, bc.ReactionS):
+                    return list(o.reactants) + list(o.products)
+                if isinstance(o, bc.MacrostateS):
+                    return list(o.complexes)
+                return []
+            todo = list(kept)
+            cplx_names = []
+            while todo:
+                o = todo.pop()
+                if isinstance(o, (bc.ReactionS, bc.MacrostateS)):
+                    todo += members(o)
+                else:
+                    cplx_names.append(o.name)
+                    need |= {x for x in o.canonical_form[0] if x != '+'}
+            out = None
+            gc.collect()
+            lostd = sorted(n for n in need if n not in bc.DomainS._instanceNames)
+            lostc = sorted(n for n in cplx_names if n not in bc.ComplexS._instanceNames)
+            held_strings = sorted({c.name for c in [bc.ComplexS._instanceNames[n] for n in cplx_names if n in bc.ComplexS._instanceNames]
+                                   if any(x != '+' and not isinstance(x, bc.DomainS) for x in c.sequence)})
+            res['lost_while_kept'] = ['domain ' + n for n in lostd] + ['complex ' + n for n in lostc] + ['complex %s holds names, not domain objects' % n for n in held_strings]
+            del kept, todo
         # registry invariants after the (possibly failed) read: previously held objects stay valid singletons
         res['registry'] = _registry_check(bc, held)
         # lifetime: dropping the dictionaries releases everything after at most one gc pass
